@@ -10,7 +10,8 @@ EXPLANATION = ("Lock-state typestate over push/pop of both stacks (atomic-flag a
                "swap(true, >=Acquire) tested for false / RawMutex::lock, release after writes is >=Release; full/empty guards are the exact "
                "canonical forms. The two non-blocking queues are checked to be delegations to the ring containers (enqueue=publish, "
                "dequeue=consume with copy-out before release) and (R18.7) the rings underneath satisfy the ring shape conditions shared with C02 (counter "
-               "protocol shapes, exact fullness / emptiness guards on the signed wrapping distance, index agreement, complete full-sync critical sections).")
+               "protocol shapes, exact fullness / emptiness guards on the signed wrapping distance, index agreement, complete full-sync critical sections) and the zero-copy "
+               "containers' callback-style consume reads the element out before its slot is released to the pool.")
 ASSUMPTIONS = ["mutual exclusion + the sequential behaviour covered by the single-threaded unit tests => linearizability of the stacks",
                "linearizability of the atomic ring under contention is not decided statically (see C01/C02 notes)"]
 
@@ -172,4 +173,6 @@ def check(ctx):
     import importlib, util
     C02 = importlib.import_module("props.C02")
     C02.check(util.PrefixedCtx(ctx, "R18.7"))
-    ctx.floor("R18.7", 30)
+    C01 = importlib.import_module("props.C01")
+    C01.check_zero_copy_getters(util.PrefixedCtx(ctx, "R18.7"), "R01.1")      # dequeue copies the element out before its slot is released
+    ctx.floor("R18.7", 32)
